@@ -58,6 +58,10 @@ func (g *egen) node(d int, inFunc, inTry bool) *enode {
 			// the catch block reports the caught error's text
 			n.kids[1].kids = append([]*enode{{kind: "catchProbe"}}, n.kids[1].kids...)
 		}
+		if n.v != "" && g.r.Intn(4) == 0 {
+			// ... and throws the caught error again
+			n.kids[1].kids = append(n.kids[1].kids, &enode{kind: "rethrow"})
+		}
 		if n.hasF {
 			n.kids = append(n.kids, g.seq(d-1, inFunc, inTry))
 		}
@@ -92,6 +96,8 @@ func (n *enode) render(b *strings.Builder) {
 		fmt.Fprintf(b, "probe(%d)\n", n.k)
 	case "catchProbe":
 		b.WriteString("probe(e)\n")
+	case "rethrow":
+		b.WriteString("throw e\n")
 	case "seq":
 		for _, k := range n.kids {
 			k.render(b)
@@ -161,6 +167,8 @@ func (n *enode) eval(tr *[]string, fr *frame, caught string) eres {
 		}
 	case "throw":
 		return eres{isErr: true, err: fmt.Sprintf("t%d", n.k)}
+	case "rethrow":
+		return eres{isErr: true, err: caught}
 	case "rterr":
 		return eres{isErr: true, err: "integer divide by zero"}
 	case "try":
@@ -216,7 +224,46 @@ func invoke(body *enode, tr *[]string) eres {
 	return r
 }
 
+// a caught error thrown again must abort like any other throw - also when what the try caught was
+// a return / break / continue passing through it (finding #13 makes those reach the catch block)
+var rethrowTemplates = []struct{ name, src string }{
+	{"runtime-error", "func() {\ntry {\n1 % 0\n} catch e {\nprobe(\"c\")\nthrow e\n}\nprobe(\"after\")\n}()\nprobe(\"after\")"},
+	{"thrown-string", "func() {\ntry {\nthrow \"s\"\n} catch e {\nprobe(\"c\")\nthrow e\n}\nprobe(\"after\")\n}()\nprobe(\"after\")"},
+	{"nested-call-error", "func g() {\nundefinedName\n}\nfunc() {\ntry {\ng()\n} catch e {\nprobe(\"c\")\nthrow e\n}\nprobe(\"after\")\n}()\nprobe(\"after\")"},
+	{"return", "func() {\ntry {\nreturn 1\n} catch e {\nprobe(\"c\")\nthrow e\n}\nprobe(\"after\")\n}()\nprobe(\"after\")"},
+	{"break", "for i = 0; i < 2; i++ {\ntry {\nbreak\n} catch e {\nprobe(\"c\")\nthrow e\n}\nprobe(\"after\")\n}\nprobe(\"after\")"},
+	{"continue", "for i = 0; i < 2; i++ {\ntry {\ncontinue\n} catch e {\nprobe(\"c\")\nthrow e\n}\nprobe(\"after\")\n}\nprobe(\"after\")"},
+	{"rethrow-in-finally-scope", "try {\ntry {\nthrow \"s\"\n} catch e {\nthrow e\n} finally {\nprobe(\"after\")\n}\n} catch e2 {\nprobe(e2)\n}"},
+}
+
 func streamErrors(o *Out, r *rand.Rand, n int, thorough bool) {
+	for _, t := range rethrowTemplates {
+		stmt, err := parser.ParseSrc(t.src)
+		if err != nil {
+			o.Fail(Failure{Oracle: "errors-template-parses", Key: "errors-template-parse", Input: t.src, Detail: err.Error()})
+			continue
+		}
+		res := runVM(stmt, -1, 3*time.Second)
+		o.Case(fmt.Sprintf("(run %d _ %s)", modelFuel, astser.Prog(stmt)), res.line, t.src, true)
+		o.Sum.Hist["rethrow-template"]++
+		if res.hung || res.panicked {
+			o.Fail(Failure{Oracle: "no-panic", Key: "errors-panic", Input: t.src, Detail: fmt.Sprint(res.panicVal, res.hung)})
+			continue
+		}
+		reachedCatch := false
+		for _, x := range res.trace {
+			if x == vals.Encode("c") {
+				reachedCatch = true
+			}
+			if x == vals.Encode("after") {
+				o.Fail(Failure{Oracle: "throw-aborts", Key: "rethrow-does-not-abort:" + t.name, Input: t.src, Detail: fmt.Sprintf("statements after a `throw e` in a catch block ran: trace %v, error %v", res.trace, res.err)})
+				break
+			}
+		}
+		if reachedCatch && res.err == nil {
+			o.Fail(Failure{Oracle: "throw-aborts", Key: "rethrow-lost:" + t.name, Input: t.src, Detail: fmt.Sprintf("the catch block threw its error again but the host got no error (trace %v)", res.trace)})
+		}
+	}
 	o.Sum.Rule = "programs nesting try/catch/finally (depth <= 4), throw and runtime errors at every position, functions with 0..n defer statements " +
 		"(probe calls, function literals, argument captured from a variable that changes afterwards), returns; expected probe trace and final error computed by an " +
 		"independent reference evaluator in the harness; non-trivial = contains try or defer; distinct by request hash"
